@@ -175,8 +175,10 @@ class Spec:
         elif k == "remove_bases":
             _, p, b = op
             self.space(p)["bases"].remove(tuple(b))
-        elif k == "set_sformula":
-            _, p, f = op
+        elif k == "set_sformula":              # optional 4th element: the public spelling used (see sformula_form)
+            p, f = op[1], op[2]
+            if f is not None and sformula_form(op) == "parameters":
+                f = {"params": f["params"]}        # `s.parameters = (...)` can only say "lambda <params>: None"
             self.space(p)["formula"] = f
         elif k == "set_prop":
             _, cp, prop, v = op
@@ -229,6 +231,19 @@ class Spec:
         if len(path) >= 2 and self.has_space(path[:-1]) and path[-1] in self.all_cells(path[:-1]):
             return "cells"
         return None
+
+
+def sformula_form(op):
+    """public spelling of a parameter-formula edit ("set_sformula", path, formula-or-None[, form]):
+    set:     "assign" `s.formula = src` | "set_formula" `s.set_formula(src)` | "parameters" `s.parameters = (...)`
+    delete:  "assign" `del s.formula`   | "del_formula" `s.del_formula()`    | "parameters" `del s.parameters`
+             | "set_formula" `s.set_formula(None)`"""
+    return op[3] if len(op) > 3 else "assign"
+
+
+def param_strings(params):
+    """'i, j=2' -> ('i', 'j=2') : the strings `s.parameters = ...` takes"""
+    return tuple(x.strip() for x in params.split(",") if x.strip())
 
 
 NONDEF_OPS = ("clear_model", "clear_space", "clear_cells", "clear_at", "clear_items", "del_item", "eval",
@@ -313,10 +328,26 @@ def live_apply(m, op):
         get(m, op[1]).remove_bases(get(m, op[2]))
     elif k == "set_sformula":
         s = get(m, op[1])
+        form = sformula_form(op)
         if op[2] is None:
-            del s.formula
-        else:
+            if form == "assign":
+                del s.formula
+            elif form == "del_formula":
+                s.del_formula()
+            elif form == "parameters":
+                del s.parameters
+            elif form == "set_formula":
+                s.set_formula(None)
+            else:
+                raise AssertionError(op)
+        elif form == "assign":
             s.formula = formula_src(op[2])
+        elif form == "set_formula":
+            s.set_formula(formula_src(op[2]))
+        elif form == "parameters":
+            s.parameters = param_strings(op[2]["params"])
+        else:
+            raise AssertionError(op)
     elif k == "set_prop":
         setattr(get(m, op[1]), op[2], op[3])
     elif k == "set_input":
@@ -615,7 +646,15 @@ def code_op(op, mvar="m"):
     if k == "remove_bases":
         return "%s.remove_bases(%s)" % (P(op[1]), P(op[2]))
     if k == "set_sformula":
-        return ("del %s.formula" % P(op[1])) if op[2] is None else "%s.formula = %r" % (P(op[1]), formula_src(op[2]))
+        form = sformula_form(op)
+        if op[2] is None:
+            return {"assign": "del %s.formula", "del_formula": "%s.del_formula()", "parameters": "del %s.parameters",
+                    "set_formula": "%s.set_formula(None)"}[form] % P(op[1])
+        if form == "parameters":
+            return "%s.parameters = %r" % (P(op[1]), param_strings(op[2]["params"]))
+        if form == "set_formula":
+            return "%s.set_formula(%r)" % (P(op[1]), formula_src(op[2]))
+        return "%s.formula = %r" % (P(op[1]), formula_src(op[2]))
     if k == "set_prop":
         return "%s.%s = %r" % (P(op[1]), op[2], op[3])
     if k == "set_input":
